@@ -44,7 +44,14 @@ func addrStrings(as []sdk.AccAddress) []string {
 }
 
 // setTax stores a tax record for denom through path: handler | keeper | genesis.
+// A panic of the code under test while storing is returned as an error (it
+// becomes a "...-setting-rejected" verdict, not a harness crash).
 func (e *env) setTax(ctx sdk.Context, path, denom, rate string, exempt []sdk.AccAddress) error {
+	err, _ := world.Protect(func() error { return e.setTaxRaw(ctx, path, denom, rate, exempt) })
+	return err
+}
+
+func (e *env) setTaxRaw(ctx sdk.Context, path, denom, rate string, exempt []sdk.AccAddress) error {
 	k := e.w.App.SkywayKeeper
 	switch path {
 	case "handler":
@@ -66,8 +73,16 @@ func (e *env) setTax(ctx sdk.Context, path, denom, rate string, exempt []sdk.Acc
 }
 
 func (e *env) setLimit(ctx sdk.Context, path, denom string, limit *big.Int, period skywaytypes.LimitPeriod, exempt []sdk.AccAddress) error {
+	err, _ := world.Protect(func() error { return e.setLimitRaw(ctx, path, denom, limit, period, exempt) })
+	return err
+}
+
+func (e *env) setLimitRaw(ctx sdk.Context, path, denom string, limit *big.Int, period skywaytypes.LimitPeriod, exempt []sdk.AccAddress) error {
 	k := e.w.App.SkywayKeeper
-	l := sdkmath.NewIntFromBigInt(limit)
+	var l sdkmath.Int // limit == nil: the field is left unset
+	if limit != nil {
+		l = sdkmath.NewIntFromBigInt(limit)
+	}
 	switch path {
 	case "handler":
 		return e.gov(ctx, &skywaytypes.SetBridgeTransferLimitProposal{Title: "t", Description: "d", Token: denom, Limit: l, LimitPeriod: period, ExemptAddresses: addrStrings(exempt)})
@@ -215,9 +230,9 @@ func (e *env) runReconfig(c reconfCase) (outcome string, fail *explore.Fail) {
 			return nil
 		}
 		if err := e.setTax(ctx, s.Path, denom, s.Rate, e.exemptList(s.Exempt)); err != nil {
-			return explore.Failf("reconf-config-rejected:"+s.Path, "setting %v rejected: %v", s, err)
+			return explore.Failf("tax-setting-rejected:"+s.Path, "setting %v rejected: %v", s, err)
 		}
-		return nil
+		return e.taxStored(ctx, denom, s.Rate, e.exemptList(s.Exempt), s.Path)
 	}
 	if f := apply(c.S1); f != nil {
 		return "", f
@@ -236,7 +251,10 @@ func (e *env) runReconfig(c reconfCase) (outcome string, fail *explore.Fail) {
 	}
 	if c.LimitToo {
 		if err := e.setLimit(ctx, c.S2.Path, denom, big.NewInt(1), skywaytypes.LimitPeriod_DAILY, []sdk.AccAddress{e.u2.Addr}); err != nil {
-			return "", explore.Failf("reconf-config-rejected:"+c.S2.Path, "limit rejected: %v", err)
+			return "", explore.Failf("limit-setting-rejected:"+c.S2.Path, "limit rejected: %v", err)
+		}
+		if f := e.limitStored(ctx, denom, big.NewInt(1), skywaytypes.LimitPeriod_DAILY, []sdk.AccAddress{e.u2.Addr}, c.S2.Path); f != nil {
+			return "", f
 		}
 	}
 	t2 := taxUnder(c.S2, "other", a2)
@@ -250,13 +268,17 @@ func (e *env) runReconfig(c reconfCase) (outcome string, fail *explore.Fail) {
 	want := map[string][2]*big.Int{e.u1.Addr.String(): {a1, t1}, e.u2.Addr.String(): {a2, t2}}
 	ids := map[string]uint64{}
 	checkRecorded := func(txs []*skywaytypes.InternalOutgoingTransferTx, where string) *explore.Fail {
+		sig := "reconf-recorded-tax"
+		if where == "pool after timeout" {
+			sig = "timeout-release-recorded-tax"
+		}
 		if len(txs) != 2 {
 			return explore.Failf("reconf-pending-set", "%s holds %d transfers, expected 2", where, len(txs))
 		}
 		for _, t := range txs {
 			wnt, ok := want[t.Sender.String()]
 			if !ok || t.BridgeTaxAmount.IsNil() || t.Erc20Token.Amount.BigInt().Cmp(wnt[0]) != 0 || t.BridgeTaxAmount.BigInt().Cmp(wnt[1]) != 0 {
-				return explore.Failf("reconf-recorded-tax", "%s: transfer %d has amount %s tax %s, taken at send time: %v (settings %v -> %v)", where, t.Id, t.Erc20Token.Amount, t.BridgeTaxAmount, wnt, c.S1, c.S2)
+				return explore.Failf(sig, "%s: transfer %d has amount %s tax %s, taken at send time: %v (settings %v -> %v)", where, t.Id, t.Erc20Token.Amount, t.BridgeTaxAmount, wnt, c.S1, c.S2)
 			}
 			ids[t.Sender.String()] = t.Id
 		}
@@ -391,19 +413,35 @@ func (e *env) reconfHeights() []int64 {
 }
 
 func (e *env) cfgOf(s limSetting) *limCfg {
-	c := &limCfg{Part: "limit-reconfig", Period: s.Period, Limit: s.Limit, l: bi(s.Limit), exemptU1: s.Exempt}
+	c := &limCfg{Part: "limit-reconfig", Period: s.Period, Limit: s.Limit, l: limitOf(s.Limit), exemptU1: s.Exempt}
 	c.period = skywaytypes.LimitPeriod(skywaytypes.LimitPeriod_value[s.Period])
 	c.wlen = (&skywaytypes.BridgeTransferLimit{LimitPeriod: c.period}).BlockLimit()
 	c.heights = e.reconfHeights()
 	return c
 }
 
-func (e *env) applyLimit(ctx sdk.Context, s limSetting) error {
+// limitOf: "nil" = limit field left unset (behaves as 0).
+func limitOf(s string) *big.Int {
+	if s == "nil" {
+		return new(big.Int)
+	}
+	return bi(s)
+}
+
+func (e *env) applyLimit(ctx sdk.Context, s limSetting) *explore.Fail {
 	ex := []sdk.AccAddress{e.ex.Addr}
 	if s.Exempt {
 		ex = []sdk.AccAddress{e.ex.Addr, e.u1.Addr}
 	}
-	return e.setLimit(ctx, s.Path, e.limDenom, bi(s.Limit), skywaytypes.LimitPeriod(skywaytypes.LimitPeriod_value[s.Period]), ex)
+	var arg *big.Int
+	if s.Limit != "nil" {
+		arg = bi(s.Limit)
+	}
+	period := skywaytypes.LimitPeriod(skywaytypes.LimitPeriod_value[s.Period])
+	if err := e.setLimit(ctx, s.Path, e.limDenom, arg, period, ex); err != nil {
+		return explore.Failf("limit-setting-rejected:"+s.Path, "%v rejected: %v", s, err)
+	}
+	return e.limitStored(ctx, e.limDenom, arg, period, ex, s.Path)
 }
 
 // runSeq executes ops from a fresh scenario; used by the enumeration for
@@ -423,9 +461,9 @@ func (e *env) partLimitReconfig() {
 			}
 		}
 	}
-	settings = append(settings, limSetting{Limit: "1000", Period: "NONE"})
+	settings = append(settings, limSetting{Limit: "1000", Period: "NONE"}, limSetting{Limit: "0", Period: "WEEKLY"}, limSetting{Limit: "nil", Period: "DAILY"})
 	if e.r.Thorough() {
-		settings = append(settings, limSetting{Limit: "2000", Period: "MONTHLY"}, limSetting{Limit: "0", Period: "DAILY"})
+		settings = append(settings, limSetting{Limit: "2000", Period: "MONTHLY"}, limSetting{Limit: "0", Period: "YEARLY"})
 	}
 	first := []string{"1", "500", "1000"}
 	second := []string{"1", "500", "501", "1000"}
@@ -518,10 +556,7 @@ func (e *env) partLimitReconfig() {
 // are carried in e.curLim (reset by every Conf op of the sequence).
 func (e *env) doSeqOp(ctx *sdk.Context, m *model, o seqOp, all []seqOp) *explore.Fail {
 	if o.Conf != nil {
-		if err := e.applyLimit(*ctx, *o.Conf); err != nil {
-			return explore.Failf("limit-reconf-config-rejected:"+o.Conf.Path, "%v rejected: %v", o, err)
-		}
-		return nil
+		return e.applyLimit(*ctx, *o.Conf)
 	}
 	// the settings in force = the last Conf before this op
 	var cur *limSetting
@@ -673,16 +708,17 @@ func (e *env) runList(c listCase) (fails []*explore.Fail) {
 	}
 	amount, limit := big.NewInt(7), big.NewInt(5)
 	if err := e.setTax(base, c.Path, e.taxDenom, "1/2", list); err != nil {
-		return []*explore.Fail{explore.Failf("exempt-config-rejected:"+c.Path, "tax with list %v rejected through %s: %v", c.List, c.Path, err)}
+		return []*explore.Fail{explore.Failf("tax-setting-rejected:"+c.Path, "tax with list %v rejected through %s: %v", c.List, c.Path, err)}
 	}
 	if err := e.setLimit(base, c.Path, e.limDenom, limit, skywaytypes.LimitPeriod_DAILY, list); err != nil {
-		return []*explore.Fail{explore.Failf("exempt-config-rejected:"+c.Path, "limit with list %v rejected through %s: %v", c.List, c.Path, err)}
+		return []*explore.Fail{explore.Failf("limit-setting-rejected:"+c.Path, "limit with list %v rejected through %s: %v", c.List, c.Path, err)}
 	}
-	// the stored lists hold exactly the configured addresses (any order)
-	st, err1 := k.BridgeTax(base, e.taxDenom)
-	sl, err2 := k.BridgeTransferLimit(base, e.limDenom)
-	if err1 != nil || err2 != nil || !sameSet(st.ExemptAddresses, list) || !sameSet(sl.ExemptAddresses, list) {
-		return []*explore.Fail{explore.Failf("exempt-config-stored:"+c.Path, "stored exemption lists differ from the configured list %v (path %s): %v %v / %v %v", c.List, c.Path, st, err1, sl, err2)}
+	// the stored records hold exactly what was configured (addresses in any order)
+	if f := e.taxStored(base, e.taxDenom, "1/2", list, c.Path); f != nil {
+		return []*explore.Fail{f}
+	}
+	if f := e.limitStored(base, e.limDenom, limit, skywaytypes.LimitPeriod_DAILY, list, c.Path); f != nil {
+		return []*explore.Fail{f}
 	}
 	for _, s := range senders {
 		pos, isListed := listed[s.Name]
